@@ -101,6 +101,10 @@ type Client struct {
 	// PatchAnswersStored: a successful merge patch is answered with the stored object after the patch - the client
 	// decodes that answer into the object handed to Patch, replacing whatever the caller had changed in memory only.
 	PatchAnswersStored bool
+	// StatusUpdateAnswersStored: a successful update of the status subresource stores the status and is answered with
+	// the stored object carrying it - metadata and spec of the object handed in are replaced by what is stored, so
+	// anything the caller changed in memory only (outside status) is gone afterwards.
+	StatusUpdateAnswersStored bool
 	scheme             *runtime.Scheme
 }
 
@@ -253,7 +257,16 @@ func (s *statusWriter) Create(context.Context, client.Object, client.Object, ...
 }
 
 func (s *statusWriter) Update(_ context.Context, obj client.Object, _ ...client.SubResourceUpdateOption) error {
-	return s.c.record(Call{Verb: "status-update", Key: KeyOf(obj), Obj: ToMap(obj)})
+	err := s.c.record(Call{Verb: "status-update", Key: KeyOf(obj), Obj: ToMap(obj)})
+	if err == nil && s.c.StatusUpdateAnswersStored {
+		if stored, ok := s.c.Objs[KeyOf(obj)]; ok {
+			if st, has := ToMap(obj)["status"]; has {
+				stored["status"] = st
+			}
+			FromMap(stored, obj)
+		}
+	}
+	return err
 }
 
 func (s *statusWriter) Patch(_ context.Context, obj client.Object, patch client.Patch, _ ...client.SubResourcePatchOption) error {
